@@ -93,6 +93,8 @@ pub enum Op {
     Clone(usize),
     AsRef(usize),
     Drop(usize),
+    /// Result with one plain-data arm and one owning arm: 0/1 Result<u32, Tok> Err/Ok, 2/3 Result<Tok, u32> Ok/Err, 4/5 Result<(), Tok> Err/Ok
+    NewMixedResult(u8),
     /// a foreign-side scratch buffer, as the JS and Dart glue makes one for every string / list argument (zero bytes for an
     /// empty one): diplomat_alloc(size, 1 << align_log2), fill, diplomat_free with the same size and alignment
     ScratchBuf(usize, u8),
@@ -114,6 +116,12 @@ enum Val {
     Str(Box<str>),
     OStr(DiplomatOwnedUTF8StrSlice),
     CB(DiplomatCallback<()>),
+    RM(Result<u32, Tok>),
+    DRM(DiplomatResult<u32, Tok>),
+    RN(Result<Tok, u32>),
+    DRN(DiplomatResult<Tok, u32>),
+    RU(Result<(), Tok>),
+    DRU(DiplomatResult<(), Tok>),
 }
 impl Val {
     fn kind(&self) -> &'static str {
@@ -128,6 +136,8 @@ impl Val {
             Val::Str(_) => "Box<str>",
             Val::OStr(_) => "DiplomatOwnedUTF8StrSlice",
             Val::CB(_) => "DiplomatCallback",
+            Val::RM(_) | Val::RN(_) | Val::RU(_) => "Result (one plain arm)",
+            Val::DRM(_) | Val::DRN(_) | Val::DRU(_) => "DiplomatResult (one plain arm)",
         }
     }
 }
@@ -200,6 +210,20 @@ pub fn check(case: &Case) -> Result<(), String> {
                 pool.push(Slot { val: Val::OS(v), ids: vec![] });
                 converted_once.push(false);
             }
+            Op::NewMixedResult(which) => {
+                let mut ids = vec![];
+                let val = match which % 6 {
+                    0 => Val::RM(Err(Tok::new(&mut ids))),
+                    1 => Val::RM(Ok(5)),
+                    2 => Val::RN(Ok(Tok::new(&mut ids))),
+                    3 => Val::RN(Err(7)),
+                    4 => Val::RU(Err(Tok::new(&mut ids))),
+                    _ => Val::RU(Ok(())),
+                };
+                label("mixed-result");
+                pool.push(Slot { val, ids });
+                converted_once.push(false);
+            }
             Op::ScratchBuf(size, al) => {
                 // (a zero-sized request is what the glue does; miri rejects it as a GlobalAlloc contract violation, so that
                 // leg keeps to non-empty buffers)
@@ -261,6 +285,12 @@ pub fn check(case: &Case) -> Result<(), String> {
                     Val::Str(s) => Val::OStr(s.into()),
                     Val::OStr(o) => Val::Str(o.into()),
                     Val::CB(c) => Val::CB(c),
+                    Val::RM(r) => Val::DRM(r.into()),
+                    Val::DRM(d) => Val::RM(d.into()),
+                    Val::RN(r) => Val::DRN(r.into()),
+                    Val::DRN(d) => Val::RN(d.into()),
+                    Val::RU(r) => Val::DRU(r.into()),
+                    Val::DRU(d) => Val::RU(d.into()),
                 };
                 pool.insert(k, Slot { val: nv, ids });
                 let _ = was;
@@ -277,6 +307,12 @@ pub fn check(case: &Case) -> Result<(), String> {
                     Val::DO(d) => Some(Val::DO(d.clone())),
                     Val::R(r) => Some(Val::R(r.clone())),
                     Val::O(o) => Some(Val::O(o.clone())),
+                    Val::DRM(d) => Some(Val::DRM(d.clone())),
+                    Val::DRN(d) => Some(Val::DRN(d.clone())),
+                    Val::DRU(d) => Some(Val::DRU(d.clone())),
+                    Val::RM(r) => Some(Val::RM(r.clone())),
+                    Val::RN(r) => Some(Val::RN(r.clone())),
+                    Val::RU(r) => Some(Val::RU(r.clone())),
                     _ => None,
                 };
                 if let Some(nv) = nv {
@@ -384,6 +420,7 @@ pub fn strategy() -> impl Strategy<Value = Case> {
         2 => idx.clone().prop_map(Op::AsRef),
         3 => idx.prop_map(Op::Drop),
         1 => (prop_oneof![Just(0usize), Just(0usize), 1usize..40], any::<u8>()).prop_map(|(n, a)| Op::ScratchBuf(n, a)),
+        3 => any::<u8>().prop_map(Op::NewMixedResult),
     ];
     proptest::collection::vec(op, 1..24).prop_map(|ops| Case { ops })
 }
